@@ -20,6 +20,22 @@ ASSUME_PATTERNS = [
 ]
 
 
+def assumed_items(text):
+    """names of everything the generated file leaves unproved: external_body items, assume_specification, uninterpreted
+    spec functions, axioms (mechanical scan, printed in the evidence)"""
+    t = re.sub(r'//[^\n]*', '', text)
+    items = []
+    for m in re.finditer(r'external_body\][^;{]*?\b(fn|struct)\s+(\w+)', t, re.S):
+        items.append('external_body %s %s' % (m.group(1), m.group(2)))
+    for m in re.finditer(r'assume_specification[^\[]*\[\s*([^\]]+?)\s*\]', t):
+        items.append('assume_specification ' + re.sub(r'\s+', ' ', m.group(1)))
+    for m in re.finditer(r'uninterp\s+spec\s+fn\s+(\w+)', t):
+        items.append('uninterp spec fn ' + m.group(1))
+    for m in re.finditer(r'\baxiom\s+fn\s+(\w+)', t):
+        items.append('axiom ' + m.group(1))
+    return sorted(set(items))
+
+
 def scan_assumptions(text):
     res = {}
     # strip comments
@@ -52,6 +68,7 @@ def run_unit(path, rlimit=None, seed=None, extra_args=(), quarantine=()):
     res['built'] = out
     res['rewrites'] = [dict(rule=r, where=w, count=c) for r, w, c in u.rewrites]
     res['assumptions'] = scan_assumptions(text)
+    res['assumed_items'] = assumed_items(text)
     res['extracted'] = [dict(fn=f['qual'], file=f['file'], line=f['line'], props=f['props'], clauses=f['clauses']) for f in u.functions]
     cmd = ['verus', out, '--output-json', '--time', '--error-format=json', '--multiple-errors', '20',
            '--triggers-mode', 'silent', '--crate-name', 'u_' + u.name]
